@@ -559,13 +559,14 @@ func countDistinct(h []uint64) int {
 }
 
 type proc struct {
-	cmd     *exec.Cmd
-	out     string
-	hb      string
-	lastHB  string
-	lastChg time.Time
-	doneCh  chan struct{}
-	err     error
+	cmd      *exec.Cmd
+	out      string
+	hb       string
+	lastHB   string
+	lastChg  time.Time
+	cpuAtChg float64
+	doneCh   chan struct{}
+	err      error
 }
 
 func (p *proc) isDone() bool {
@@ -610,6 +611,9 @@ func (p *proc) kill() {
 func (p *proc) wait(hangS int) (hung bool) {
 	// the processes are waited for one after the other: the stall clock of this one starts now
 	p.lastChg = time.Now()
+	if p.cmd.Process != nil {
+		p.cpuAtChg = cpuSeconds(p.cmd.Process.Pid)
+	}
 	for !p.isDone() {
 		time.Sleep(50 * time.Millisecond)
 		if rssMB(p.cmd.Process.Pid) > 6000 {
@@ -621,7 +625,13 @@ func (p *proc) wait(hangS int) (hung bool) {
 		b, _ := os.ReadFile(p.hb)
 		if s := strings.TrimSpace(string(b)); s != p.lastHB && s != "" {
 			p.lastHB, p.lastChg = s, time.Now()
-		} else if time.Since(p.lastChg) > time.Duration(hangS)*time.Second {
+			p.cpuAtChg = cpuSeconds(p.cmd.Process.Pid)
+		} else if stalled := time.Since(p.lastChg); (stalled > time.Duration(hangS)*time.Second && cpuSeconds(p.cmd.Process.Pid)-p.cpuAtChg > float64(hangS)/2) ||
+			stalled > time.Duration(hangS*8)*time.Second {
+			// A stall is measured in the worker's own CPU time, so that a machine busy with other work
+			// cannot make a healthy worker look hung: a spinning task burns CPU without moving the
+			// heartbeat; a worker that got no CPU did not stall. A worker blocked without burning CPU
+			// (a deadlock of real locks) is given eight times the period.
 			// SIGQUIT makes the Go runtime print every goroutine's stack before it exits: that tells a
 			// task spinning inside the interpreter from a stall of the harness itself
 			if p.cmd.Process != nil {
@@ -636,6 +646,25 @@ func (p *proc) wait(hangS int) (hung bool) {
 		}
 	}
 	return false
+}
+
+// cpuSeconds: user+system CPU time of the process and its threads so far.
+func cpuSeconds(pid int) float64 {
+	b, err := os.ReadFile(fmt.Sprintf("/proc/%d/stat", pid))
+	if err != nil {
+		return 0
+	}
+	s := string(b)
+	if i := strings.LastIndexByte(s, ')'); i >= 0 {
+		s = s[i+1:]
+	}
+	f := strings.Fields(s)
+	if len(f) < 14 {
+		return 0
+	}
+	ut, _ := strconv.ParseFloat(f[11], 64)
+	st, _ := strconv.ParseFloat(f[12], 64)
+	return (ut + st) / 100
 }
 
 func rssMB(pid int) int {
@@ -1025,7 +1054,7 @@ func raceLeg(prop, tier string, seed int64, secs int, info map[string]any, fixed
 	if err0 := cmd.Start(); err0 != nil {
 		die2("cannot start the race leg: %v", err0)
 	}
-	timer := time.AfterFunc(time.Duration(secs+60)*time.Second, func() {
+	timer := time.AfterFunc(time.Duration(secs+120)*time.Second, func() {
 		timedOut = true
 		syscall.Kill(-cmd.Process.Pid, syscall.SIGKILL)
 	})
@@ -1035,7 +1064,7 @@ func raceLeg(prop, tier string, seed int64, secs int, info map[string]any, fixed
 	info["race_leg_wall_s"] = time.Since(t0).Seconds()
 	if timedOut {
 		return &violation{seed: seed, res: &harness.Result{Violation: "real-leg-stuck", Signature: "real-leg-stuck",
-			Detail: fmt.Sprintf("the real-goroutine leg did not finish within %d s (budget %d s): its workloads always terminate, so goroutines are deadlocked or spinning; this does not replay exactly", secs+60, secs)}}
+			Detail: fmt.Sprintf("the real-goroutine leg did not finish within %d s (budget %d s): its workloads always terminate, so goroutines are deadlocked or spinning; this does not replay exactly", secs+120, secs)}}
 	}
 	if b, e := os.ReadFile(filepath.Join(scratch, "race.json")); e == nil {
 		var m map[string]any
